@@ -165,7 +165,7 @@ MODE_POST = {"200": "200", "evack": "202", "ackev": "202", "silence": "202", "st
 def real_reqs(case):
     """the requests proper (a notification or a non-message object written to the stream has no
     terminal message)"""
-    return [r for r in case.get("reqs", []) if r["mode"] not in ("notif", "garbage")]
+    return [r for r in case.get("reqs", []) if r["mode"] not in ("notif", "garbage", "rawid")]
 
 
 def harness_case(case):
@@ -178,12 +178,17 @@ def harness_case(case):
                 h[f] = r[f]
         if r["mode"] == "garbage":
             h["form"] = "garbage"
+        if r["mode"] == "rawid":
+            # a message whose id has a JSON type JSON-RPC does not allow: no script, not a request
+            h["form"] = "dict"
+            reqs.append(h)
+            continue
         if r["mode"] in ("notif", "garbage"):
             h["id"] = None
             reqs.append(h)
             continue
         post = {"k": MODE_POST[r["mode"]], "d": r.get("d", 4), "code": r.get("code", 500), "body": r.get("body", "text")}
-        for f in ("body200", "text", "exc_text"):
+        for f in ("body200", "text", "exc_text", "exc_class"):
             if f in r:
                 post[f] = r[f]
         ev = None
@@ -198,7 +203,7 @@ def harness_case(case):
         "chunks": [[t, p.hex()] for t, p in plan], "close": close, "bounds": item_bounds(case),
         "reqs": reqs, "exit": case.get("exit", {"k": "normal", "at": 50}), "pause": case.get("pause", 0),
     }
-    for f in ("write_mode", "warm", "api", "params", "close_raises", "notif_post", "ctor_fails"):
+    for f in ("write_mode", "warm", "api", "params", "close_raises", "notif_post", "ctor_fails", "twin", "twin_offset", "debug_log", "close_exc"):
         if f in case:
             out[f] = case[f]
     return out
@@ -209,7 +214,7 @@ def py_key(v):
     return None if v is None else str(v)
 
 
-NON_ANSWER_200 = ("foreign", "ack")
+NON_ANSWER_200 = ("foreign", "ack", "list", "null", "number", "string", "true")
 
 
 def event_order(r):
@@ -380,6 +385,7 @@ def exit_after(case):
         at = max(at, r["at"]) + r.get("d", 4) + r.get("ed", 0) + len(r.get("cuts", [])) * r.get("gap", 0) + 10
         if acks(r) or "ed" in r:
             at += T  # also for an answer on the event stream: were it lost, the synthesised timeout error is the terminal
+    at += T * sum(1 for r in case.get("reqs", []) if r["mode"] == "rawid")
     plan, close = chunk_plan(case)
     if plan:
         at = max(at, plan[-1][0] + 10)
@@ -1008,4 +1014,151 @@ def race_matrix_cases(budget, rng):
                     if ed == D:
                         c["boundary"] = True  # same instant: which of the two the code sees first is not scripted; oracle only
                     out.append(finish(c))
+    return out
+
+
+# ------------------------------------------------------------------ hardening sweep 2 (HARDEN2.md)
+# C. every option of SSEParameters that defaults to off / None, set: crossed with everything
+OPTION_SETS = [
+    {},
+    {"session_id": "sess-1"},
+    {"bearer_token": "tok"},
+    {"session_id": ""},
+    {"headers": {"X-A": "1"}},
+    {"auto_reconnect": False},
+    {"session_id": "s 2&x=1", "bearer_token": "Bearer t", "headers": {"Authorization": "x"}, "auto_reconnect": True, "max_reconnect_attempts": 9},
+    {"max_reconnect_attempts": 1, "reconnect_delay": 0.5},   # (boundary values of the validators: units suite, supplementary)
+    {"sse_endpoint": "/events", "message_endpoint_base": "/rpc"},
+    {"keep_alive_interval": 5.0},
+    {"some_future_option": True},
+]
+
+
+def decorate(cases, suite):
+    """cross-cutting dimensions applied to every suite's cases, deterministically:
+    A. a quarter of the cases run as inside a host that configured logging at DEBUG;
+    C. the parameter options cycle through OPTION_SETS (cases that set options themselves keep them);
+    B. every 7th case of the session suites runs as 2 or 3 concurrent sessions in one process
+       (own scripted server each, same script, same request ids)."""
+    out = []
+    for k, c in enumerate(cases):
+        c = dict(c)
+        if k % 4 == 1:
+            c["debug_log"] = True
+        if "params" not in c and not c.get("api"):
+            o = OPTION_SETS[(k // 2) % len(OPTION_SETS)] if k % 2 else {}
+            if o:
+                c["params"] = o
+        if suite in ("establish", "requests", "race-matrix", "variants", "grammar", "exits", "repeats") and k % 7 == 3 \
+                and not c.get("warm") and not c.get("ctor_fails") and c.get("write_mode") != "await":
+            c["twin"] = 2 + (k // 7) % 2
+            c["twin_offset"] = (0, 2)[(k // 14) % 2]
+        out.append(c)
+    return out
+
+
+FAIL_SPECS = [{"mode": "exc"}, {"mode": "status", "code": 503, "body": "text"}, {"mode": "status", "code": 500, "body": "detail"},
+              {"mode": "silence", "d": 2}, {"mode": "200", "body200": "empty"}, {"mode": "200", "body200": "ack"},
+              {"mode": "exc", "exc_class": "OSError"}]
+EXC_CLASSES = ["TypeError", "ValueError", "KeyError", "IndexError", "AttributeError", "RuntimeError", "RecursionError", "OSError",
+               "Exception", "ReadTimeout", "ConnectError", "UnicodeDecodeError"]
+BAD_IDS = [1.5, [1], {"a": 1}, [], {}]  # (the library's parser takes true / false as 1 / 0: unspecified, not generated)
+SYNTAX_TEXT = ["data: x", "event: endpoint", ":comment", "retry: 5", "id: 1", "[NaN]", ":Infinity,", "{}", "values=[1.0, NaN]",
+               "{\"jsonrpc\":\"2.0\",\"id\":\"r1\",\"result\":{}}", "\n\ndata: evil\n\n"]
+SYNTAX_JUNK = [
+    {"k": "raw", "text": "data: data: x\n\n"},
+    {"k": "raw", "text": "data: event: endpoint\n\n"},
+    {"k": "raw", "text": "data: :\n\n"},
+    {"k": "raw", "text": ": data: {\"jsonrpc\":\"2.0\",\"method\":\"hidden/in-comment\"}\n"},
+    {"k": "raw", "text": "retry: data: {\"jsonrpc\":\"2.0\",\"method\":\"hidden/in-retry\"}\n\n"},
+    {"k": "raw", "text": "event: message\nid: data: x\n\n"},
+]
+
+
+def msg_badid(i, v):
+    """a server message whose id has a type JSON-RPC does not allow: the library's parser refuses it"""
+    return {"k": "msg", "m": {"jsonrpc": "2.0", "id": v, "result": {"i": i}}, "typed": bool(i % 2), "valid": False}
+
+
+def repeat_cases(budget, rng):
+    """D. the same failure 2, 3, 4 times in a row, then success; a failure between two successes;
+    consecutive failing sessions on one parameters object, then a good one;
+    E. ids / bodies of every JSON type in the peer- and caller-supplied positions;
+    F. every builtin exception class where the code catches around a peer-controlled call;
+    G. text that looks like event-stream / JSON syntax."""
+    out = []
+    T = 64
+    k = 0
+    ok_specs = [{"mode": "200"}, {"mode": "ackev", "d": 2, "ed": 5}]
+    # D: requests
+    for f in FAIL_SPECS:
+        for n in (2, 3, 4):
+            for okspec in ok_specs:
+                k += 1
+                if budget == "quick" and n == 3 and k % 2:
+                    continue
+                reqs = [mk_req(j + 1, 3 + j, dict(f)) for j in range(n)] + [mk_req(n + 1, 3 + n, okspec)]
+                out.append(finish({"T": T, "tie": TIES[k % 3], "items": [EP, msg_notif(k)], "t0": 1, "gap": 0, "reqs": reqs}))
+        k += 1
+        reqs = [mk_req(1, 3, ok_specs[0]), mk_req(2, 4, dict(f)), mk_req(3, 5, ok_specs[1]), mk_req(4, 6, dict(f)), mk_req(5, 7, ok_specs[0])]
+        out.append(finish({"T": T, "tie": TIES[k % 3], "items": [EP], "t0": 1, "gap": 0, "reqs": reqs}))
+    # D: failing notification POSTs in a row, then a request
+    for nf in ("exc", 500):
+        for n in (2, 4):
+            k += 1
+            reqs = [{"id": None, "at": 3 + j, "mode": "notif", "params": {"i": j}} for j in range(n)] + [mk_req(9, 3 + n, ok_specs[k % 2])]
+            out.append(finish({"T": T, "tie": TIES[k % 3], "items": [EP], "t0": 1, "gap": 0, "reqs": reqs, "notif_post": nf}))
+    # D: consecutive failing sessions on one parameters object, then the observed one
+    bad_conns = [{"k": "status", "at": 1, "code": 503}, {"k": "error", "at": 0}, {"k": "status", "at": 0, "code": 404},
+                 {"k": "error", "at": 2, "exc_class": "OSError"}]
+    for bc in bad_conns:
+        for n in (1, 2, 4):
+            for final in ({"k": "ok", "at": 0}, bc):
+                k += 1
+                c = {"T": T, "tie": TIES[k % 3], "conn": final, "warm": [bc] * n, "items": [EP, msg_notif(1)], "t0": 1, "gap": 0,
+                     "reqs": [mk_req(1, 3, ok_specs[k % 2])], "params": OPTION_SETS[k % len(OPTION_SETS)]}
+                out.append(finish(c))
+    k += 1
+    out.append(finish({"T": T, "tie": "io", "conn": {"k": "ok", "at": 0}, "warm": [None, bad_conns[0], None, bad_conns[1]], "items": [EP], "t0": 1, "gap": 0,
+                       "reqs": [mk_req(1, 3, {"mode": "200"})], "params": {"session_id": "again"}}))
+    # F: exception classes: POST, connection attempt, the event stream itself
+    for ec in EXC_CLASSES:
+        k += 1
+        out.append(finish({"T": T, "tie": TIES[k % 3], "items": [EP], "t0": 1, "gap": 0,
+                           "reqs": [mk_req(1, 3, {"mode": "exc", "exc_class": ec}), mk_req(2, 4, {"mode": "exc", "exc_class": ec, "ed": 2}),
+                                    mk_req(3, 5, {"mode": "200"})]}))
+        out.append(finish({"T": T, "tie": TIES[k % 3], "conn": {"k": "error", "at": k % 3, "exc_class": ec}, "items": [EP], "reqs": [probe_req()],
+                           "params": OPTION_SETS[k % len(OPTION_SETS)]}))
+        # the stream fails after the announcement: POSTs keep working, a 202 ends with the timeout error
+        out.append(finish({"T": T, "tie": TIES[k % 3], "items": [EP, msg_notif(1)], "t0": 1, "gap": 0, "close": 2, "close_exc": ec,
+                           "reqs": [mk_req(1, 6, {"mode": "200"}), mk_req(2, 7, {"mode": "silence", "d": 2}), mk_req(3, 8, {"mode": "200"})]}))
+        # ... and before any announcement: entering must raise
+        out.append(finish({"T": T, "tie": TIES[k % 3], "items": [msg_notif(1)], "t0": 1, "gap": 0, "close": 2, "close_exc": ec, "reqs": [probe_req()],
+                           "params": OPTION_SETS[(k + 1) % len(OPTION_SETS)]}))
+    for b200 in ("badutf8", "list", "null", "number", "string", "true"):
+        for ed in (None, 2, 9):
+            k += 1
+            spec = {"mode": "200", "body200": b200, "d": 5}
+            if ed is not None:
+                spec["ed"] = ed
+            out.append(finish({"T": T, "tie": TIES[k % 3], "items": [EP], "t0": 1, "gap": 0, "reqs": [mk_req(1, 3, spec), mk_req(2, 4, {"mode": "200"})]}))
+    for body in ("list", "null", "number", "string"):
+        k += 1
+        out.append(finish({"T": T, "tie": TIES[k % 3], "items": [EP], "t0": 1, "gap": 0,
+                           "reqs": [mk_req(1, 3, {"mode": "status", "code": 500, "body": body}), mk_req(2, 4, {"mode": "200"})]}))
+    # E: ids of every JSON type, written by the caller and sent by the peer, around ordinary requests
+    for v in BAD_IDS:
+        k += 1
+        reqs = [{"id": v, "at": 3, "mode": "rawid"}, mk_req(1, 4, {"mode": "200"}), mk_req(2, 5, {"mode": "ackev", "d": 2, "ed": 5})]
+        out.append(finish({"T": T, "tie": TIES[k % 3], "items": [EP, msg_badid(k, v), msg_notif(k), msg_badid(k + 1, v)], "t0": 1, "gap": 2, "reqs": reqs}))
+    # G: text that looks like syntax, as ids, in keys and values, and as raw lines
+    for t in SYNTAX_TEXT:
+        k += 1
+        m = {"k": "msg", "m": {"jsonrpc": "2.0", "method": "notifications/message", "params": {t: t, "v": [t, {t: None}]}}, "typed": bool(k % 2),
+             "multiline": bool(k % 3 == 0), "nospace": bool(k % 5 == 0)}
+        items = [EP, m] + SYNTAX_JUNK + [dict(m)]
+        nbytes = len("".join(render_item(it) for it in items).encode("utf-8"))
+        out.append(finish({"T": T, "tie": TIES[k % 3], "items": items, "cuts": sorted(rng.sample(range(1, nbytes), 3)), "t0": 1, "gap": 1,
+                           "reqs": [mk_req(1, 3, {"mode": "ackev", "d": 2, "ed": 6}, id=t, answer={"kind": "result", "payload": {t: t}}),
+                                    mk_req(2, 5, {"mode": "200"})]}))
     return out
